@@ -90,6 +90,10 @@ type world struct {
 	contenderEntered bool
 	partitioned map[int]bool
 	entries int
+	// cancellations that are tied to the next Unlock of anybody (faults placed
+	// right at the hand-off)
+	beforeUnlock []func()
+	afterUnlock  []func()
 }
 
 func New(c *sim.Case) (sim.World, error) {
@@ -521,7 +525,21 @@ func (w *world) acquire(ts *taskState, lk gsync.Locker, op sim.Op, i int) {
 			cancel()
 			ctxDoneBefore = true
 			e.Probe("cancel_before_call")
-		case op.E > 0 && op.E < 1000:
+		case op.E == 998 || op.E == 999:
+			cn := cancel
+			f := func() {
+				w.noteCancel(ts)
+				e.Probe("cancel_at_handoff")
+				cn()
+			}
+			if op.E == 999 {
+				w.beforeUnlock = append(w.beforeUnlock, f)
+			} else {
+				w.afterUnlock = append(w.afterUnlock, f)
+			}
+			// (if nobody unlocks any more the attempt simply is not cancelled: it then
+			// acquires, or the run's own progress rules apply)
+		case op.E > 0 && op.E < 998:
 			n := int(op.E)
 			cn := cancel
 			e.Spawn(fmt.Sprintf("%s.c%d", ts.name, i), func() {
@@ -573,7 +591,15 @@ func (w *world) acquire(ts *taskState, lk gsync.Locker, op sim.Op, i int) {
 		w.leave(ts)
 		ts.unlocking = true
 		ten := w.curTen[ts.name]
+		for _, f := range w.beforeUnlock {
+			f()
+		}
+		w.beforeUnlock = nil
 		lk.Unlock()
+		for _, f := range w.afterUnlock {
+			f()
+		}
+		w.afterUnlock = nil
 		ts.unlocking = false
 		if ten != nil {
 			ten.unlocked = true
@@ -735,7 +761,36 @@ func short(s string) string {
 	return s
 }
 
-func (w *world) Idle(e *sim.Env) {}
+// Idle: nothing is runnable. On the in-memory backend a deleted lock record
+// wakes its waiters at once, so (C04) a caller that is still parked in an
+// acquisition while the record is absent and nobody holds or releases the lock
+// has lost its wake-up, whatever timer might rescue it later.
+func (w *world) Idle(e *sim.Env) {
+	if w.prop() != "C04" || w.be == nil || w.be.Kind != backend.InMem || len(w.inside) > 0 {
+		return
+	}
+	if _, present := w.be.Peek(lockKey); present {
+		return
+	}
+	var blocked []string
+	for _, ts := range w.tasks {
+		if ts.done {
+			continue
+		}
+		if ts.unlocking || ts.inside {
+			return
+		}
+		if ts.acquiring && ts.ctxLive() && !ts.prov.shutInvoked {
+			blocked = append(blocked, ts.name)
+		} else if !ts.acquiring {
+			return // somebody is between operations (e.g. sleeping)
+		}
+	}
+	if len(blocked) == 0 {
+		return
+	}
+	e.Violate("C04", "lost_handoff", "nothing is runnable, the lock record is absent and nobody holds the lock, yet %v stay(s) parked in an acquisition with a live context: the wake-up of the hand-off was lost (a timer may rescue it later, the hand-off did not); goroutines: %s", blocked, strings.Join(e.RT.All(), "; "))
+}
 
 func (w *world) Quiet(e *sim.Env) bool {
 	if w.prop() == "C04" {
